@@ -1,5 +1,5 @@
 From Coq Require Import ZArith List Bool.
-From UDS Require Import Lib.Bytes Model.Entry Model.Names Model.Helpers Model.History Model.Ecu.
+From UDS Require Import Lib.Bytes Model.Entry Model.Names Model.Helpers Model.History Model.Ecu Model.Conn.
 Import ListNotations.
 Open Scope Z_scope.
 
@@ -8,6 +8,7 @@ Definition run_case (e : Z) (a : list Z) (b : list bytes) : list Z :=
   else if (2000 <=? e) && (e <? 2100) then entry_names e a
   else if (1900 <=? e) && (e <? 2000) then entry_helpers e a
   else if e =? 5000 then entry_history a b
+  else if (1600 <=? e) && (e <? 1610) then entry_conn e a b
   else if (1200 <=? e) && (e <? 1210) then entry_ecu e a b
   else if e =? 5018 then (let v := nth 0 a 0 in if (v =? 2006) || (v =? 2013) || (v =? 2020) then [0] else [2; 2])
   else if e =? 5015 then [1; 1; 1; 0]  (* Client.__enter__/__exit__: open once, close once on every exit path *)
